@@ -227,6 +227,19 @@ func (c *Ctx) Discard() []core.Ob {
 
 // successWithoutCount: a return with a nil error is reachable from the one-byte Read without passing
 // the edge of a comparison that establishes count >= 1 ("" if none).
+// derivesFromCallErrAtSomeReturn: some return of the function hands back the error result of the call.
+func derivesFromCallErrAtSomeReturn(call *ssa.Call) bool {
+	for _, b := range call.Parent().Blocks {
+		if ret, ok := b.Instrs[len(b.Instrs)-1].(*ssa.Return); ok && len(ret.Results) > 0 {
+			last := ret.Results[len(ret.Results)-1]
+			if kc, ok := last.(*ssa.Const); !(ok && kc.IsNil()) && derivesFromCallErr(last, call, 0) {
+				return true
+			}
+		}
+	}
+	return false
+}
+
 func successWithoutCount(call *ssa.Call) string {
 	fn := call.Parent()
 	if !hasErrorResult(fn) {
@@ -285,7 +298,13 @@ func successWithoutCount(call *ssa.Call) string {
 		}
 	}
 	if len(good) == 0 {
-		return "" // the count is used in some other way (returned, added up): not this pattern
+		// the count is only handed on (returned, added up), never looked at here. A function that is not
+		// itself a Read method then passes the Read's error through whatever the count was: a last byte
+		// that arrives together with io.EOF is reported as a failure, and a (0, nil) read as a byte.
+		if derivesFromCallErrAtSomeReturn(call) {
+			return "the count of the one-byte Read is handed on but never compared: the Read's error is returned as it is, so a byte that arrives together with io.EOF counts as a failure and a (0, nil) read as success (io.ReadFull decides both)"
+		}
+		return ""
 	}
 	// behind an edge on which a byte is known to have been read, the byte is delivered: the error handed
 	// back there is nil (a Reader may return the last byte together with io.EOF)
